@@ -58,25 +58,22 @@ iteration order in Python, here in `Var.keyLt` order -/
 def sortByName (vs : List Var) : List Var :=
   sortStable (fun a b => decide (a.name < b.name)) (upgradeOrdering vs)
 
-/-- `contract(e)` (after the fix: numerator and denominator must be over the same population, and a fraction of two
-equal joints is left alone) -/
-def contract (e : Expr) : Except Err Expr :=
+/-- `contract(e)` (after the fixes: the denominator's variables must be a PROPER subset of the numerator's, and both
+probabilities must be over the same population) -/
+def contract (e : Expr) : Expr :=
   match e with
   | .frac (.prob pop nc []) (.prob pop' dc []) =>
-    if pop = pop' ∧ subset' dc nc then
-      let children := diff' (dedup' nc) dc
-      let parents := inter' (dedup' nc) dc
-      if children.isEmpty then throw (.invalidInput "ValueError")
-      else pure (.prob pop (sortByName children) (sortByName parents))
-    else pure e
-  | _ => pure e
+    if pop = pop' ∧ subset' dc nc ∧ ¬ subset' nc dc then
+      .prob pop (sortByName (diff' (dedup' nc) dc)) (sortByName (inter' (dedup' nc) dc))
+    else e
+  | _ => e
 
 mutual
 /-- `Applier.apply_expression` of the `_Contracter` subclass -/
 def recursiveContract : Expr → Except Err Expr
   | .sum e r => do pure (.sum (← recursiveContract e) r)
   | .prod fs => do pure (productSafe (← recursiveContractList fs))
-  | .frac n d => contract (.frac n d)
+  | .frac n d => pure (contract (.frac n d))
   | e => pure e
 def recursiveContractList : List Expr → Except Err (List Expr)
   | [] => pure []
